@@ -61,7 +61,7 @@ func vMergeCfg(prefix, idBase string, nDocs int, second bool, focus string) gCfg
 		fields[0].terms = []string{""}
 	}
 	if second {
-		fields = append(fields, gField{name: "g", terms: []string{"a"}, dv: true})
+		fields = append(fields, gField{name: "g", terms: []string{"a"}, dv: true, shape: true}) // (a geo-shape field: its shape is an extra doc-value term)
 	}
 	return gCfg{prefix: prefix, idBase: idBase, nDocs: nDocs, wide: -1, noFx: true, fields: fields}
 }
